@@ -171,7 +171,15 @@ def run_property(pid, tier, seed, keep=False):
                 cov["disagreements_checked"] += len(r.disagreements)
             # --- failing-input search when an obligation or the tie broke but no input was found yet
             if (problems or any(not f for _, f in violations)) and not any(f for _, f in violations):
-                boosted = _boosted_search(sc, pid, spec, tier, seed, known)
+                boosted = None
+                if spec.get("search"):
+                    # family-specific failing-input search (e.g. free-running races repeated under a time budget);
+                    # returns a replay payload like _boosted_search's, or None
+                    try:
+                        boosted = spec["search"](sc, pid, spec, tier, seed, known)
+                    except Exception as ex:
+                        core.log("search hook failed: %r" % (ex,))
+                boosted = boosted or _boosted_search(sc, pid, spec, tier, seed, known)
                 if boosted:
                     violations.insert(0, (boosted, True))
             # --- known findings: replay listed witnesses
